@@ -252,4 +252,176 @@ theorem op_pres (c : SCfg) (op : Op) : Pres (fun n => n.op c op) := by
 theorem run_pres (c : SCfg) (ops : List Op) : Pres (fun n => n.run c ops) :=
   Pres.foldl ops (fun n op => n.op c op) (fun op => op_pres c op)
 
+/-! ### per-node invariants lift to every schedule -/
+
+/-- every node of the net satisfies `P` (which may depend on the node's validator index) -/
+def AllNodes (P : Nat → NodeState → Prop) (net : Net) : Prop := ∀ nd ∈ net.nodes, P nd.idx nd.s
+
+/-- `f` keeps `AllNodes P` -/
+def Keeps (P : Nat → NodeState → Prop) (f : Net → Net) : Prop := ∀ n, AllNodes P n → AllNodes P (f n)
+
+theorem Keeps.foldl {P : Nat → NodeState → Prop} {α} (l : List α) (f : Net → α → Net)
+    (h : ∀ a, Keeps P (fun n => f n a)) : Keeps P (fun n => l.foldl f n) := by
+  induction l with
+  | nil => intro n hn; exact hn
+  | cons a l ih => intro n hn; simp only [List.foldl]; exact ih (f n a) (h a n hn)
+
+theorem allNodes_set {P : Nat → NodeState → Prop} {net : Net} (h : AllNodes P net) (i : Nat) (nd' : Node)
+    (hp : P nd'.idx nd'.s) : ∀ nd ∈ net.nodes.set i nd', P nd.idx nd.s := by
+  intro nd hm
+  rcases List.mem_or_eq_of_mem_set hm with h1 | h1
+  · exact h nd h1
+  · subst h1; exact hp
+
+section
+variable {P : Nat → NodeState → Prop} (c : SCfg)
+  (hstep : ∀ idx s inp, P idx s → P idx (Cons.step (nodeCfg c.cfg idx) s inp))
+include hstep
+
+theorem input_keeps (i : Nat) (inp : Input) : Keeps P (fun n => n.input c i inp) := by
+  intro n hn
+  show AllNodes P (n.input c i inp)
+  unfold Net.input
+  cases hi : n.nodes[i]? with
+  | none => exact hn
+  | some nd =>
+    dsimp only
+    have hmem : nd ∈ n.nodes := List.mem_of_getElem? hi
+    exact allNodes_set hn i _ (by
+      unfold harvest
+      exact hstep nd.idx nd.s inp (hn nd hmem))
+
+theorem deliver_keeps (i k : Nat) : Keeps P (fun n => n.deliver c i k) := by
+  intro n hn
+  show AllNodes P (n.deliver c i k)
+  unfold Net.deliver
+  split
+  · split
+    · exact hn
+    · exact input_keeps c hstep i _ n hn
+  · exact hn
+
+theorem claim_keeps (i j : Nat) : Keeps P (fun n => n.claim c i j) := by
+  intro n hn
+  show AllNodes P (n.claim c i j)
+  unfold Net.claim
+  split
+  · exact hn
+  · split
+    · exact hn
+    · rename_i p _ _
+      exact Keeps.foldl (claimsOf p.s)
+        (fun net (x : Nat × VType × Bid) => net.input c i (.peerMaj23 x.1 x.2.1 (1 + p.idx) x.2.2))
+        (fun x => input_keeps c hstep i _) n hn
+
+theorem closure_keeps : Keeps P (fun n => n.closure c) := by
+  have hpassNode : ∀ i, Keeps P (fun n => n.passNode c i) := by
+    intro i n hn
+    show AllNodes P (n.passNode c i)
+    unfold Net.passNode
+    have h1 := Keeps.foldl (List.range n.nodes.length) (fun net j => net.claim c i j)
+      (fun j => claim_keeps c hstep i j) n hn
+    exact Keeps.foldl _ (fun net k => net.deliver c i k) (fun k => deliver_keeps c hstep i k) _ h1
+  have hpass : Keeps P (fun n => n.pass c) := by
+    intro n hn
+    show AllNodes P (n.pass c)
+    unfold Net.pass
+    exact Keeps.foldl _ (fun net i => net.passNode c i) hpassNode n hn
+  have hloop : ∀ fuel, Keeps P (closureLoop c fuel) := by
+    intro fuel
+    induction fuel with
+    | zero => intro n hn; exact hn
+    | succ f ih =>
+      intro n hn
+      unfold closureLoop
+      dsimp only
+      split
+      · exact hpass n hn
+      · exact ih _ (hpass n hn)
+  intro n hn
+  show AllNodes P (n.closure c)
+  unfold Net.closure
+  exact hloop closureFuel n hn
+
+theorem fire_keeps (i : Nat) : Keeps P (fun n => n.fire c i) := by
+  intro n hn
+  show AllNodes P (n.fire c i)
+  unfold Net.fire
+  cases hi : n.nodes[i]? with
+  | none => exact hn
+  | some nd =>
+    dsimp only
+    cases hp : nd.tick.pending with
+    | none => exact hn
+    | some x =>
+      obtain ⟨r, st, e⟩ := x
+      dsimp only
+      apply input_keeps c hstep i _
+      have hmem : nd ∈ n.nodes := List.mem_of_getElem? hi
+      exact allNodes_set hn i _ (hn nd hmem)
+
+/-- **a property of single nodes that every input of the receive routine keeps holds of every node
+of the net under every schedule** -/
+theorem op_keeps (op : Op) : Keeps P (fun n => n.op c op) := by
+  intro n hn
+  show AllNodes P (n.op c op)
+  cases op with
+  | dl i k => exact deliver_keeps c hstep i k n hn
+  | byz m =>
+    show AllNodes P ((n.byz m).getD n)
+    unfold Net.byz
+    dsimp only
+    split
+    · split
+      · exact hn
+      · exact hn
+    · split
+      · exact hn
+      · exact hn
+  | claim i j => exact claim_keeps c hstep i j n hn
+  | byzclaim i r t peer b =>
+    show AllNodes P (if n.faultyPeer c peer then n.input c i (.peerMaj23 r t peer b) else n)
+    split
+    · exact input_keeps c hstep i _ n hn
+    · exact hn
+  | fire i =>
+    show AllNodes P (if n.synced ∧ !n.closed then n else if n.fireAllowed c i then n.fire c i else n)
+    split
+    · exact hn
+    · split
+      · exact fire_keeps c hstep i n hn
+      · exact hn
+  | closure => exact closure_keeps c hstep n hn
+  | sync => exact hn
+
+theorem run_keeps (ops : List Op) : Keeps P (fun n => n.run c ops) :=
+  Keeps.foldl ops (fun n op => n.op c op) (fun op => op_keeps c hstep op)
+
+theorem syncRun_keeps (moves : List Op) : Keeps P (fun n => syncRun c n moves) := by
+  intro n hn
+  show AllNodes P (syncRun c n moves)
+  unfold syncRun
+  have h0 : AllNodes P ({ n with synced := true }.closure c) := closure_keeps c hstep _ hn
+  exact Keeps.foldl moves (fun net mv => (net.op c mv).closure c)
+    (fun mv n hn => closure_keeps c hstep _ (op_keeps c hstep mv n hn)) _ h0
+
+end
+
+/-- every node of a net reached from `Net.init` is the node model run on SOME input list: all the
+single-node theorems (`Tmv.Cons`, C02, the vote arithmetic, the commit invariants) apply to it -/
+theorem nodes_are_runs (c : SCfg) (correct : List Nat) (ops : List Op) :
+    AllNodes (fun idx s => ∃ is, s = Cons.run (nodeCfg c.cfg idx) .init is) ((Net.init correct).run c ops) := by
+  apply run_keeps c (P := fun idx s => ∃ is, s = Cons.run (nodeCfg c.cfg idx) .init is)
+  · intro idx s inp ⟨is, e⟩
+    refine ⟨is ++ [inp], ?_⟩
+    rw [e]
+    simp [Cons.run, List.foldl_append]
+  · intro nd hm
+    unfold Net.init at hm
+    simp only [List.mem_map] at hm
+    obtain ⟨i, _, e⟩ := hm
+    subst e
+    exact ⟨[], rfl⟩
+
+
 end Tmv.Sync
